@@ -484,6 +484,10 @@ fn run_transport(
                             if msgs.len() < buffer_limit { buffer_limit - msgs.len() } else { 0 };
                         let to_drain = buffered_pmsgs.len().saturating_sub(available);
                         let _ = msgs.drain(0..to_drain);
+                        #[cfg(metrics_verif)]
+                        if to_drain > 0 {
+                            metrics::__verif::probe("tcp.drop_oldest");
+                        }
                         msgs.extend(buffered_pmsgs.iter().take(buffer_limit).cloned());
 
                         let done = drive_connection(conn, wbuf, msgs);
@@ -595,6 +599,8 @@ fn drive_connection(
                 // chunk of the buffer.  TODO: do we need to reregister ourselves to track writable
                 // status??
                 let remaining = buf.split_off(n);
+                #[cfg(metrics_verif)]
+                metrics::__verif::probe("tcp.partial_write");
                 trace!(?conn, written = n, remaining = remaining.len(), "partial write");
                 wbuf.replace(remaining);
                 return false;
@@ -604,6 +610,8 @@ fn drive_connection(
             // would lose a whole message or, worse, the rest of a partially written one, gluing the next message onto
             // the fragment the client already received.
             Err(ref e) if would_block(e) => {
+                #[cfg(metrics_verif)]
+                metrics::__verif::probe("tcp.would_block_requeue");
                 wbuf.replace(buf);
                 return false;
             }
